@@ -221,9 +221,42 @@ def run_one(rng, ctx):
     if grid_case:
         # a grid-sensitive root consumer: map_blocks with a block-local kernel over a subtree of pushdown-able operations
         # (no window operations: their native-chunk substitution is an algebraic rewrite the grid gate does not cover)
-        g = Prog(rng, max_extent=7, max_size=3000, weights=WEIGHTS, ops=GRID_OPS)
-        g.grow(rng.randint(2, 6))
+        if rng.random() < 0.4:
+            # a contiguous window of a fancy-indexed, unevenly chunked axis (the slice can be pushed through the take,
+            # which regroups the blocks - possibly into the same NUMBER of blocks)
+            n = rng.randint(6, 14)
+            from vf.gen import rand_chunks
+
+            shape = [n] + ([rng.randint(1, 3)] if rng.random() < 0.3 else [])
+            ind = list(range(n))
+            if rng.random() < 0.6:
+                for i in range(0, n - 1, 2):
+                    if rng.random() < 0.8:
+                        ind[i], ind[i + 1] = ind[i + 1], ind[i]
+            else:
+                rng.shuffle(ind)
+            lo = rng.randint(0, n - 3)
+            hi = rng.randint(lo + 2, n)
+            steps = [
+                {"op": "from_array", "in": [], "p": {"shape": shape, "dtype": rng.choice(["f8", "i8"]), "chunks": [list(c) for c in rand_chunks(rng, shape)], "vals": "perm", "seed": rng.randrange(10**6) * 8 + 1}},
+                {"op": "take", "in": [0], "p": {"ind": ind, "axis": 0}},
+            ]
+            if rng.random() < 0.3:
+                steps.append({"op": "scalar", "in": [1], "p": {"fn": "add", "s": 1, "rev": False}})
+            steps.append({"op": "getitem", "in": [len(steps) - 1], "p": {"idx": [["s", lo, hi, None]]}})
+            try:
+                g = Prog.replay(steps)
+            except ReplayRefused:
+                ctx.count("grid_case_not_built")
+                return
+            g.rng = rng
+            ctx.count("grid_directed_take_window")
+        else:
+            g = Prog(rng, max_extent=7, max_size=3000, weights=WEIGHTS, ops=GRID_OPS)
+            g.grow(rng.randint(2, 6))
         cands = [v for v, s in zip(g.vars, g.steps) if s["in"] and v.da is not None and v.ndim >= 1]
+        if cands and g.steps[-1]["op"] == "getitem" and ctx.counters.get("grid_directed_take_window"):
+            cands = [g.vars[-1]]
         v = g.step_on(rng.choice(cands), "map_blocks_local") if cands else None
         if v is None or g.steps[v.id]["op"] != "map_blocks_local":
             ctx.count("grid_case_not_built")
